@@ -172,9 +172,20 @@ impl<'a> ExpressionEvaluator<'a> {
                         "cannot apply unary operators to lists of values!".to_string(),
                     ));
                 };
-                Ok(vec![DataType::Bool(Bool(
-                    set.contains(&evaluated[0]) || *negated,
-                ))])
+                // x IN (list): UNKNOWN when x is NULL, TRUE when an element equals x, UNKNOWN when
+                // nothing matched but the list holds a NULL, FALSE otherwise; NOT IN negates it.
+                if matches!(evaluated[0], DataType::Null) {
+                    return Ok(vec![DataType::Null]);
+                }
+                let has_null = set.iter().any(|v| matches!(v, DataType::Null));
+                let found = set.iter().any(|v| !matches!(v, DataType::Null) && *v == evaluated[0]);
+                Ok(vec![if found {
+                    DataType::Bool(Bool(!*negated))
+                } else if has_null {
+                    DataType::Null
+                } else {
+                    DataType::Bool(Bool(*negated))
+                }])
             }
             BoundExpression::Subquery { query, result_type } => {
                 todo!("Subquery evaluation is not yet implemented")
